@@ -6,12 +6,14 @@ import (
 
 	"verif/harness/checks/c01"
 	"verif/harness/checks/c02"
+	"verif/harness/checks/c03"
 	"verif/harness/vf"
 )
 
 var checks = map[string]func(*vf.Check){
 	"C01": c01.Run,
 	"C02": c02.Run,
+	"C03": c03.Run,
 }
 
 func main() {
